@@ -90,6 +90,40 @@ Theorem gen_fast_slice : forall (base rest : list str), rest <> [] -> Forall (fu
   gen_fast_rel (join_with c_slash base) (join_with c_slash (base ++ rest)) = join_with c_slash rest.
 Proof. intros base rest H1 H2. rewrite gen_fast_rel_is_model. apply fast_rel_agrees; assumption. Qed.
 
+(* @needs verify *)
+(* ------------------------------------------------------------------------------------------------ metadata_from_many: verify_schema *)
+From Pq Require Import Dataset.SchemaEq Proofs.SchemaEqProofs.
+
+Lemma existsb_negb_forallb {A} (f : A -> bool) l : existsb (fun x => negb (f x)) l = negb (forallb f l).
+Proof. induction l as [|x l IH]; [reflexivity|]. cbn. rewrite IH. destruct (f x); reflexivity. Qed.
+
+(* the regenerated verification raises exactly when the merge model does: every file after the first is compared with the first *)
+Theorem gen_verify_is_model : forall (S X : Type) (seqb : S -> S -> bool) (pf0 : pfile S X) rest,
+  gen_verify_raises (fun a b => negb (seqb a b)) (map (pf_schema S X) (pf0 :: rest))
+  = negb (forallb (fun pf => seqb (pf_schema S X pf) (pf_schema S X pf0)) rest).
+Proof.
+  intros S X seqb pf0 rest. unfold gen_verify_raises. cbn [map skipn nth_error].
+  destruct rest as [|p r]; [reflexivity|]. cbn [map]. rewrite <- existsb_negb_forallb.
+  change (pf_schema S X p :: map (pf_schema S X) r) with (map (pf_schema S X) (p :: r)).
+  induction (p :: r) as [|q l IH]; [reflexivity|]. cbn [map existsb]. rewrite IH. reflexivity.
+Qed.
+
+(* ... hence, with `!=` on the lists of SchemaElement objects (Dataset/SchemaEq.v: schema_eqb, proved to be element-wise, attribute-wise
+   equality), verification of the regenerated text raises iff some later file's schema is not equivalent to the first file's *)
+Theorem gen_verify_rejects_iff : forall (X : Type) (pf0 : pfile (list elem) X) rest,
+  gen_verify_raises (fun a b => negb (schema_eqb a b)) (map (pf_schema (list elem) X) (pf0 :: rest)) = true
+  <-> exists pf, In pf rest /\ ~ schema_equiv (pf_schema (list elem) X pf) (pf_schema (list elem) X pf0).
+Proof.
+  intros X pf0 rest. rewrite gen_verify_is_model. rewrite negb_true_iff. split.
+  - intros E. assert (Hex : existsb (fun pf => negb (schema_eqb (pf_schema (list elem) X pf) (pf_schema (list elem) X pf0))) rest = true)
+      by (rewrite existsb_negb_forallb, E; reflexivity).
+    apply existsb_exists in Hex. destruct Hex as [pf [Hin Hn]]. exists pf. split; [exact Hin|].
+    intros Heq. apply schema_eqb_iff in Heq. rewrite Heq in Hn. discriminate.
+  - intros [pf [Hin Hn]]. destruct (forallb _ rest) eqn:E; [|reflexivity]. rewrite forallb_forall in E.
+    exfalso. apply Hn, schema_eqb_iff, E, Hin.
+Qed.
+Print Assumptions gen_verify_rejects_iff.
+
 (* @needs strip *)
 (* ------------------------------------------------------------------------------------------------ _strip_path_tail *)
 Lemma split_on_no_char : forall c s, has_char c s = false -> split_on c s = [s].
